@@ -31,7 +31,11 @@ CONFIG = {
              "namespace history (throw-away taxa added at drawn points and removed again, then sort()/sort(reverse)/"
              "reverse(), so list position != accession index) x in 2 of 3 cases a SECOND write/read of the same objects "
              "in the same process after relabelling none/some/all taxa or rotating their labels, with a drawn format, "
-             "option pair and entry point. Sweep: every label of length <= 2 (quick) / <= 3 (thorough) over a "
+             "option pair and entry point; in 1 of 3 cases one or two CONFUSABLE PAIRS are planted in the label pool "
+             "(space vs underscore, swapped separators, trailing/leading underscore, quoted copy, ' vs '', one vs two "
+             "spaces/underscores, space vs tab ...). Pairs: deterministic list of every confusable derivation of 8 base "
+             "labels x 19 format/option combinations x 3 layouts (both labels on one tree / on two trees of a list in "
+             "either order). Sweep: every label of length <= 2 (quick) / <= 3 (thorough) over a "
              "45-character alphabet as a leaf of a three-leaf tree (length 1 / <= 2 also as an internal node label) x "
              "formats x label option pairs (a)-(d) x translate. "
              "Non-trivial = a label with a character outside [A-Za-z0-9], or a non-default option pair, or a length "
@@ -125,6 +129,61 @@ def length_strategy():
     )
 
 
+def _swap_all(b):
+    return b.translate({32: "_", 95: " "})
+
+
+def _swap_one(b):
+    for k, c in enumerate(b):
+        if c in " _":
+            return b[:k] + ("_" if c == " " else " ") + b[k + 1:]
+    return b
+
+
+# name -> function(base) -> list of labels that replace (base's slot, the partner's slot); None keeps the slot
+CONFUSABLE = {
+    "space_vs_underscore": lambda b: [b + " x", b + "_x"],
+    "swap_all": lambda b: [None, _swap_all(b)],
+    "swap_one": lambda b: [None, _swap_one(b)],
+    "trailing_underscore": lambda b: [None, b + "_"],
+    "leading_underscore": lambda b: [None, "_" + b],
+    "single_quoted": lambda b: [None, "'" + b + "'"],
+    "double_quoted": lambda b: [None, '"' + b + '"'],
+    "quote_vs_doubled_quote": lambda b: [b + "'s", b + "''s"],
+    "one_vs_two_spaces": lambda b: [b + " x", b + "  x"],
+    "one_vs_two_underscores": lambda b: [b + "_x", b + "__x"],
+    "space_vs_tab": lambda b: [b + " x", b + "\tx"],
+    "underscore_vs_nothing": lambda b: [b + "_x", b + "x"],
+    "space_underscore_order": lambda b: [b + " _x", b + "_ x"],
+}
+CONFUSABLE_NAMES = sorted(CONFUSABLE)
+
+
+def admissible(l):
+    return bool(l) and l == l.strip() and l[0] not in WS and l[-1] not in WS
+
+
+def apply_confusable(pool, i, j, name):
+    """Replace pool[i] / pool[j] by a near-colliding pair derived from pool[i]; no-op unless the result is admissible
+    and the pool stays pairwise distinct under str.lower().  Returns True when applied."""
+    if i == j:
+        return False
+    a, b = CONFUSABLE[name](pool[i])
+    a = pool[i] if a is None else a
+    if not (admissible(a) and admissible(b)) or a.lower() == b.lower():
+        return False
+    others = set(l.lower() for k, l in enumerate(pool) if k not in (i, j))
+    if a.lower() in others or b.lower() in others:
+        return False
+    pool[i], pool[j] = a, b
+    return True
+
+
+def confusion_key(l):
+    """Labels with the same key are distinct but differ only in space/underscore/tab/quote characters."""
+    return re.sub(r"[ _\t'\"]+", " ", l).strip().lower()
+
+
 @st.composite
 def tree_strategy(draw, n_taxa, max_leaves, imode, rooted):
     """One tree over taxon indices 0..n_taxa-1 (drawn injection), lengths and internal decorations drawn."""
@@ -174,6 +233,16 @@ def cases(draw, max_leaves, fmt=None):
     with_second = draw(st.integers(0, 2)) > 0
     npool = 2 * n_taxa if with_second else n_taxa
     pool = draw(st.lists(label_strategy(), min_size=npool, max_size=npool, unique_by=lambda s: s.lower()))
+    # confusable pairs: labels of ONE namespace that must stay distinct although they differ only in space vs
+    # underscore, quoting, doubled separators ... (every asserted option pair keeps them distinguishable: a space is
+    # written as an unquoted underscore or inside quotes, an underscore always inside quotes unless the reader
+    # preserves unquoted underscores)
+    if npool >= 2 and draw(st.integers(0, 2)) == 0:
+        pool = list(pool)
+        for rep in range(draw(st.integers(1, 2))):
+            hi = (n_taxa if rep == 0 and n_taxa >= 2 else npool) - 1
+            apply_confusable(pool, draw(st.integers(0, hi)), draw(st.integers(0, hi)),
+                             draw(st.sampled_from(CONFUSABLE_NAMES)))
     labels = pool[:n_taxa]
     ns_order = list(draw(st.permutations(list(range(n_taxa)))))
     # namespace history: throw-away taxa that join at drawn points and are removed again (list position != accession
@@ -590,6 +659,13 @@ def bookkeeping(ctx, case, sub):
         ctx.cls("nexus:translate")
     if case.get("into"):
         ctx.cls("read_into_original_namespace")
+    for labs, tag in ((case["labels"], "first"), ((case.get("second") or {}).get("labels") or [], "second")):
+        keys = [confusion_key(l) for l in labs]
+        if len(set(keys)) < len(keys):
+            ctx.cls("ns:confusable_pair_in_namespace:%s_round" % tag)
+        norm = [l.replace("_", " ") for l in labs]
+        if len(set(norm)) < len(norm):
+            ctx.cls("ns:space_vs_underscore_pair:%s_round" % tag)
     hist = case.get("hist") or {"ghosts": [], "sort": None}
     n = len(case["labels"])
     if any(g < n for g in hist["ghosts"]):
@@ -698,12 +774,65 @@ def check_sweep(ctx, item):
     run_case(ctx, case, "sweep")
 
 
-SUBCHECKS = {"random": check_case, "sweep": check_sweep}
+CONFUSABLE_BASES = ["a", "a b", "a_b", "P regius", "x'y", "1", "é ß", "a  b_c"]
+PAIR_COMBOS = ([("newick", p, False) for p in "abcdef"] + [("nexus", p, tr) for p in "abcdef" for tr in (False, True)]
+               + [("nexml", "a", False)])
+
+
+def pair_items():
+    """Every confusable derivation of every base x format/option combination x layout (both labels on one tree /
+    on two trees of one list / the second label only on the second tree, read into the first's namespace order)."""
+    items = []
+    seen = set()
+    for base in CONFUSABLE_BASES:
+        for name in CONFUSABLE_NAMES:
+            pool = [base, "Kq"]
+            if not apply_confusable(pool, 0, 1, name) or tuple(pool) in seen:
+                continue
+            seen.add(tuple(pool))
+            for fmt, pair, tr in PAIR_COMBOS:
+                for layout in ("one_tree", "two_trees", "two_trees_reversed"):
+                    items.append({"pair_labels": pool, "derivation": name, "fmt": fmt, "pair": pair, "translate": tr,
+                                  "layout": layout})
+    return items
+
+
+def pair_case(item):
+    a, b = item["pair_labels"]
+    labels = [a, b, "Kx", "Ky"]
+
+    def lf(i, L):
+        return {"t": i, "lab": None, "len": L, "ch": []}
+
+    def tree(ch):
+        return {"spec": {"t": None, "lab": None, "len": None, "ch": ch}, "rooted": True, "weight": 2, "lenpat": "mixed"}
+    if item["layout"] == "one_tree":
+        trees = [tree([lf(0, 1.5), lf(2, None), lf(1, 2)])]
+    elif item["layout"] == "two_trees":
+        trees = [tree([lf(0, 1.5), lf(2, None)]), tree([lf(3, 1), lf(1, 2)])]
+    else:
+        trees = [tree([lf(2, None), lf(1, 1.5)]), tree([lf(0, 1), lf(3, 2)])]
+    return {"fmt": item["fmt"], "pair": item["pair"], "imode": "none", "labels": labels, "ns_order": [0, 1, 2, 3],
+            "trees": trees, "translate": item["translate"], "route": "list_string", "k": 0, "list_rooting": True}
+
+
+def check_pair_item(ctx, item):
+    case = pair_case(item)
+    ctx.cls("pairs:%s" % item["derivation"])
+    ctx.cls("pairs:%s:%s%s" % (item["fmt"], item["pair"], ":translate" if item["translate"] else ""))
+    ctx.cls("pairs:layout:%s" % item["layout"])
+    ctx.nontrivial(["pairs", item])
+    ctx.sample("pairs:%s" % item["fmt"], item)
+    run_case(ctx, case, "pairs")
+
+
+SUBCHECKS = {"random": check_case, "sweep": check_sweep, "pairs": check_pair_item}
 
 
 def run(ctx):
     quick = ctx.tier == "quick"
     # the sweep is deterministic and cheap: run it first so that a loaded machine cannot starve it
+    runner.run_items(ctx, "pairs", pair_items(), check_pair_item)
     runner.run_items(ctx, "sweep", sweep_items(2, 1) if quick else sweep_items(3, 2), check_sweep)
     total = 6400 if quick else 48000
     maxl = 8 if quick else 20
